@@ -83,13 +83,15 @@ def _constants(draw):
     ks = [draw(st.sampled_from([1.0, 3.0, -2.0, 0.25])) for _ in range(len(cuts) + 1)]
     return dict(part="constants", method=method, dtype="float64", w=w, damp=draw(st.sampled_from([0.0, -0.5])) if fam != "splitting" else 0.0,
                 y0=[draw(st.sampled_from([1.0, -0.5, 2.0])), draw(st.sampled_from([0.0, 1.0, -0.75]))], t0=t0, tf=tf, dt=L * frac,
-                rtol=1e-8, atol=1e-8, cuts=cuts, ks=ks, cb_at=draw(st.sampled_from([None, None, 1, 2, 3])), cb_k=draw(st.sampled_from([2.0, -1.0, 0.5])))
+                rtol=1e-6, atol=1e-6, cuts=cuts, ks=ks,
+                # (runs without a callback carry no step cap: the slow families always get the callback variant)
+                cb_at=draw(st.sampled_from([None, None, 1, 2, 3] if not slow else [1, 2, 3])), cb_k=draw(st.sampled_from([2.0, -1.0, 0.5])))
 
 
 def parts(tier):
     q = tier == "quick"
     return [Part("dense", strategy=_case(), examples=700 if q else 15000, timeout=300),
-            Part("constants", strategy=_constants(), examples=300 if q else 6000, timeout=300)]
+            Part("constants", strategy=_constants(), examples=300 if q else 6000, timeout=120)]
 
 
 def _check_constants(case):
@@ -122,7 +124,13 @@ def _check_constants(case):
     targets = [case["t0"] + c * span for c in case["cuts"]] + [None]
     for j, tg in enumerate(targets):
         a.constants["k"] = case["ks"][j] if not (j > 0 and case["cb_at"] is not None and cb_state["n"] >= case["cb_at"] and False) else a.constants["k"]
-        err = traj.run_integrate(a, tg, step_limit=len(a) + (200 if fam in ("implicit_fixed", "implicit_embedded", "richardson") else 1500), callbacks=[cb])
+        # (a callback is attached only when it is to change the constant: the library treats "after a callback" separately)
+        # (and then the run has no callback at all, not even the harness' step cap: the case watchdog bounds it)
+        err = traj.run_integrate(a, tg, step_limit=(len(a) + (200 if fam in ("implicit_fixed", "implicit_embedded", "richardson") else 1500)) if case["cb_at"] is not None else None,
+                                 callbacks=[cb] if case["cb_at"] is not None else [])
+        if err is None and case["cb_at"] is None:
+            while len(k_of_step) < len(a) - 1:
+                k_of_step.append(float(case["ks"][j]))
         if isinstance(err, traj.StepCap):
             return [], dict(nontrivial=False, labels=labels + ["capped"])
         if err is not None:
